@@ -20,7 +20,26 @@ type ntlmStep struct {
 	kind byte   // N A M G B E
 	user string
 	pw   string
-	from int // index of the history step whose challenge the proof is for (A only), -1 = none available
+	from int    // index of the history step whose challenge the proof is for (A only), -1 = none available
+	as   string // scripted histories: the name written into the message instead of user ("" = user)
+}
+
+// c14Scripted: histories that run first in every run, whatever the seed. On one session: an attempt that
+// is rejected (right user, wrong password), then a new negotiate and a proof made with one user's password
+// under another user's name, in both orders and with the honest login before or after.
+func c14Scripted() [][]ntlmStep {
+	n := func(sid string) ntlmStep { return ntlmStep{sid: sid, kind: 'N', from: -1} }
+	a := func(sid, user, pw, as string) ntlmStep {
+		return ntlmStep{sid: sid, kind: 'A', user: user, pw: pw, as: as, from: -1}
+	}
+	return [][]ntlmStep{
+		{n("s1"), a("s1", "alice", "wrong", ""), n("s1"), a("s1", "alice", "secret1", "carol")},
+		{n("s1"), a("s1", "carol", "wrong", ""), n("s1"), a("s1", "carol", "hunter2", "alice")},
+		{n("s1"), a("s1", "alice", "secret1", ""), n("s1"), a("s1", "alice", "secret1", "carol"), n("s1"), a("s1", "carol", "hunter2", "")},
+		{n("s1"), a("s1", "alice", "wrong", ""), n("s1"), a("s1", "alice", "wrong", ""), n("s1"), a("s1", "alice", "secret1", "")},
+		{n("s1"), n("s2"), a("s1", "alice", "wrong", ""), a("s2", "alice", "secret1", "carol"), n("s2"), a("s2", "carol", "hunter2", "")},
+		{n("10.0.0.1:4711"), a("10.0.0.1:4711", "alice", "x", ""), n("10.0.0.1:4711"), a("10.0.0.1:4711", "alice", "secret1", "Alice")},
+	}
 }
 
 func runC14(r *Run) {
@@ -42,10 +61,21 @@ func runC14(r *Run) {
 		doms  []string // per call: the domain field of an authenticate message ("-" otherwise)
 	}
 	var cases []*hcase
+	scripted := c14Scripted()
 	for i := 0; i < n; i++ {
 		hc := &hcase{db: map[string]string{}}
 		var users []authconfig.UserConfig
+		var script []ntlmStep
+		if i < len(scripted) {
+			script = scripted[i]
+		}
 		for _, nm := range names {
+			if script != nil {
+				pw := map[string]string{"alice": "secret1", "bob": "x", "carol": "hunter2", "Alice": "pässwörd", "nopass": ""}[nm]
+				hc.db[nm] = pw
+				users = append(users, authconfig.UserConfig{Username: nm, Password: pw})
+				continue
+			}
 			if rng.Intn(3) != 0 {
 				pw := pws[rng.Intn(len(pws)-1)]
 				if nm == "nopass" {
@@ -60,6 +90,9 @@ func runC14(r *Run) {
 		chalNonce := map[int]int{}     // step index -> model nonce
 		nonce := 0
 		nsteps := 1 + rng.Intn(12)
+		if script != nil {
+			nsteps = len(script)
+		}
 		sidNo := map[string]string{}
 		var negs []int
 		for k := 0; k < nsteps; k++ {
@@ -106,6 +139,17 @@ func runC14(r *Run) {
 			default:
 				st.kind = 'E'
 			}
+			if script != nil {
+				st = script[k]
+				if st.kind == 'A' { // the proof answers the latest challenge drawn on the same session
+					for j := len(negs) - 1; j >= 0; j-- {
+						if hc.steps[negs[j]].sid == st.sid {
+							st.from = negs[j]
+							break
+						}
+					}
+				}
+			}
 			// build the message
 			var msg string
 			dom := "-"
@@ -126,7 +170,12 @@ func runC14(r *Run) {
 				}
 				cl := ntlm.V2ClientSession{}
 				// the domain field is the client's to fill in (empty, a NetBIOS name, a DNS name): the proof covers it
-				dom = []string{"", "", "CORP", "corp.example"}[rng.Intn(4)]
+				// (one client, one domain: it follows from the session identifier)
+				h := len(st.sid)
+				for _, b := range []byte(st.sid) {
+					h += int(b)
+				}
+				dom = []string{"", "CORP", "", "corp.example"}[h%4]
 				cl.SetUserInfo(st.user, st.pw, dom)
 				cl.GenerateNegotiateMessage()
 				cm, err := ntlm.ParseChallengeMessage(challenges[st.from])
@@ -140,7 +189,10 @@ func runC14(r *Run) {
 				}
 				raw := am.Bytes()
 				named := st.user
-				if rng.Intn(4) == 0 {
+				if st.as != "" && len(st.as) == len(st.user) {
+					named = st.as
+					raw = bytes.Replace(raw, utf16le(st.user), utf16le(st.as), 1)
+				} else if script == nil && rng.Intn(4) == 0 {
 					// the message names another user than the one whose password made the proof
 					for _, o := range names {
 						if o != st.user && len(o) == len(st.user) && rng.Intn(2) == 0 {
